@@ -829,7 +829,7 @@ class Machine:
             h = getattr(self.world, "str_variant", None)
             if h is not None and isinstance(v, Str):
                 return I(h(st, v, rv), "isize")
-            if isinstance(v, Opq) and v.kind == "uf" and rv.get("variants"):
+            if isinstance(v, Opq) and v.kind in ("uf", "fresh") and rv.get("variants"):
                 # the enum-valued result of an uninterpreted function: one answer per term and path
                 names = [nm for _i, _d, nm in rv["variants"]]
                 ans = st.choose(("uf-variant", v.data), names)
@@ -1194,6 +1194,9 @@ class Machine:
                     body = d
             if body is not None:
                 return self.push_frame(st, fr, t, body, args)
+            c = self.ctor_of(callee["path"])
+            if c is not None:
+                return self.finish_call(st, fr, t, Adt(c[0], c[1], tuple(args)))
             raise AnalysisError("unmodelled call to %s (%s) at %s:%d" % (callee["full"], "resolved" if callee["resolved"] else "unresolved", t["span"]["file"], t["span"]["line"]))
         if isinstance(r, tuple) and len(r) in (3, 4) and r[0] is INLINE:
             return self.push_frame(st, fr, t, r[1], r[2], r[3] if len(r) == 4 else None)
@@ -1223,6 +1226,23 @@ class Machine:
         st.frames.append(nf)
         return None
 
+    def ctor_of(self, path):
+        """`Enum::Variant` / tuple-struct name used as a function value: (adt path, variant index)."""
+        t = getattr(self.world, "ctor_table", None)
+        if t and path in t:
+            return t[path]
+        if "::" in path:
+            parent, name = path.rsplit("::", 1)
+            a = self.prog.adts.get(parent)
+            if a is not None:
+                for v in a["variants"]:
+                    if v["name"] == name:
+                        return (parent, v["idx"])
+            a = self.prog.adts.get(path)
+            if a is not None and a["kind"] == "Struct":
+                return (path, 0)
+        return None
+
     def call_value(self, st, fval, args, t):
         """Used by models of Fn::call & co: returns (INLINE, body, args) or a value."""
         if isinstance(fval, Ref):
@@ -1246,6 +1266,9 @@ class Machine:
                     return r
             body = self.prog.callee_body(info)
             if body is None:
+                c = self.ctor_of(fval.path)
+                if c is not None:
+                    return Adt(c[0], c[1], tuple(args))
                 raise AnalysisError("call of fn value %s: no body" % fval.full)
             return (INLINE, body, list(args))
         return self.world.indirect_call(self, st, fval, list(args), t)
